@@ -42,6 +42,8 @@ func (c Call) String() string {
 		return fmt.Sprintf("%s(%v)", c.K, c.Vals)
 	case "clone", "len":
 		return fmt.Sprintf("%s.%s", n[c.Recv], c.K)
+	case "rangestop":
+		return fmt.Sprintf("%s.range(stop@%d)", n[c.Recv], c.V)
 	case "cartesian":
 		return fmt.Sprintf("cartesian(%s,%s)", n[c.Recv], n[c.Arg])
 	}
@@ -55,6 +57,10 @@ type Scenario struct {
 	BuildA []BOp     `json:"build_a"`
 	BuildB []BOp     `json:"build_b"`
 	Calls  []Call    `json:"calls"`
+	// Lazy: the operands are fully re-read only after the build phase and at the
+	// end. Reading a concurrent set promotes its dirty map, so re-reading after every
+	// call would keep it in one layout for the whole history.
+	Lazy bool `json:"lazy,omitempty"`
 }
 
 // H is the harness.
@@ -64,7 +70,9 @@ type H struct{}
 func (H) ID() string { return "C03" }
 
 // Faults implements core.Harness.
-func (H) Faults() core.FaultMenu { return core.FaultMenu{Sequential: true, MaxSteps: 100000} }
+func (H) Faults() core.FaultMenu {
+	return core.FaultMenu{Sequential: true, MapOrder: true, MaxSteps: 100000}
+}
 
 // Decode implements core.Harness.
 func (H) Decode(b []byte) (any, error) {
@@ -81,22 +89,48 @@ func (H) Describe(sc any) string {
 
 func genBuild(r *simrt.Rand, u int) []BOp {
 	var out []BOp
+	if u >= 20 && r.Intn(2) == 0 {
+		// a large promoted layout, then removals and fresh additions with no
+		// enumeration in between: size-guarded fast paths and amended/dirty
+		// bookkeeping only move here
+		m := 16 + r.Intn(u-18)
+		for v := 0; v < m; v++ {
+			out = append(out, BOp{K: "add", V: v})
+		}
+		out = append(out, BOp{K: "len"})
+		fresh := m
+		for i := 0; i < 2+r.Intn(12); i++ {
+			switch r.Intn(4) {
+			case 0, 1:
+				out = append(out, BOp{K: "remove", V: r.Intn(m)})
+			case 2:
+				if fresh < u {
+					out = append(out, BOp{K: "add", V: fresh})
+					fresh++
+				}
+			default:
+				out = append(out, BOp{K: "remove", V: m + r.Intn(u-m)})
+			}
+		}
+		return out
+	}
 	for i := 0; i < r.Intn(14+u); i++ {
 		out = append(out, BOp{K: []string{"add", "add", "add", "remove", "has", "has", "len"}[r.Intn(7)], V: r.Intn(u)})
 	}
 	return out
 }
 
-var callKinds = []string{"union", "intersect", "setdiff", "symdiff", "union", "intersect", "setdiff", "symdiff", "addset", "removeset", "add", "remove", "has", "clone", "cartesian", "fromslice", "fromkeys", "fromvalues", "len"}
+var callKinds = []string{"rangestop", "rangestop", "union", "intersect", "setdiff", "symdiff", "union", "intersect", "setdiff", "symdiff", "addset", "removeset", "add", "remove", "has", "clone", "cartesian", "fromslice", "fromkeys", "fromvalues", "len"}
 
 // Generate implements core.Harness.
 func (H) Generate(r *simrt.Rand, tier string) any {
 	impls := []string{"maps", "sync2"}
 	s := &Scenario{Impl: [2]string{impls[r.Intn(2)], impls[r.Intn(2)]}, U: 1 + r.Intn(7)}
-	if r.Intn(6) == 0 {
-		s.U = 8 + r.Intn(24)
+	if r.Intn(5) == 0 {
+		s.U = 8 + r.Intn(32)
 	}
 	s.BuildA, s.BuildB = genBuild(r, s.U), genBuild(r, s.U)
+	s.Lazy = r.Intn(2) == 0
 	n := 1 + r.Intn(10)
 	if tier == "thorough" && r.Intn(4) == 0 {
 		n = 1 + r.Intn(80)
@@ -269,7 +303,7 @@ func (H) Execute(scAny any, cfg simrt.Config, st *core.Stats) (*simrt.Outcome, *
 			}
 			return true
 		}
-		if !checkOperands("after-build") {
+		if !sc.Lazy && !checkOperands("after-build") {
 			return
 		}
 		// result must equal want, and be detached from the operands
@@ -281,6 +315,9 @@ func (H) Execute(scAny any, cfg simrt.Config, st *core.Stats) (*simrt.Outcome, *
 			res.Add(777)
 			for _, x := range want.sorted() {
 				res.Remove(x)
+			}
+			if sc.Lazy {
+				return true // the operands are re-read at the end: sharing still shows there
 			}
 			return checkOperands(where + "/after-mutating-result")
 		}
@@ -365,7 +402,37 @@ func (H) Execute(scAny any, cfg simrt.Config, st *core.Stats) (*simrt.Outcome, *
 			case "has":
 				a.Has(c.V + 100)
 			case "len":
-				a.Len()
+				if got := a.Len(); got != len(ma) {
+					fail(where, fmt.Sprintf("len: Len()=%d want %d", got, len(ma)))
+					return
+				}
+			case "rangestop":
+				calls := 0
+				seen := map[int]bool{}
+				bad := ""
+				a.Range(func(v int) bool {
+					calls++
+					if !ma[v] || seen[v] {
+						bad = fmt.Sprintf("range: visited %d (member: %v, already visited: %v)", v, ma[v], seen[v])
+					}
+					seen[v] = true
+					return calls < c.V
+				})
+				want := c.V
+				if want < 1 {
+					want = 1
+				}
+				if want > len(ma) {
+					want = len(ma)
+				}
+				if bad != "" {
+					fail(where, bad)
+					return
+				}
+				if calls != want {
+					fail(where, fmt.Sprintf("range-stop: the callback asked to stop at call %d of a set of %d and was called %d times", c.V, len(ma), calls))
+					return
+				}
 			case "clone":
 				if !checkResult(where, a.Clone(), ma.clone()) {
 					return
@@ -414,9 +481,12 @@ func (H) Execute(scAny any, cfg simrt.Config, st *core.Stats) (*simrt.Outcome, *
 					}
 				}
 			}
-			if !checkOperands(where) {
+			if !sc.Lazy && !checkOperands(where) {
 				return
 			}
+		}
+		if sc.Lazy && !checkOperands("at-the-end") {
+			return
 		}
 	}
 	out := core.RunSequential(cfg, body)
